@@ -288,7 +288,19 @@ fn typed_docs(ep: &EntryPoint, t: Tier, f: &mut dyn FnMut(String)) {
                 }
             }
         }
+        // the same document as it may arrive: without its final newline, with CR LF line ends, with tab-indented
+        // continuation lines and no blank after the colon
+        let mut unterminated = text.clone();
+        unterminated.pop();
+        let crlf = text.replace('\n', "\r\n");
+        let tabbed: String = text
+            .split_inclusive('\n')
+            .map(|l| if let Some(rest) = l.strip_prefix(' ') { format!("\t{}", rest) } else { l.replacen(": ", ":", 1) })
+            .collect();
         f(text);
+        f(unterminated);
+        f(crlf);
+        f(tabbed);
     };
     kdev_shard(&menus, k, None, &mut go);
     for first in 0..menus.len() {
@@ -305,7 +317,7 @@ impl Prop for C02 {
         "model_checking"
     }
     fn rule(&self, _t: Tier) -> String {
-        "for each of the 60+ text-parsing entry points: (1) every string over its native character-class alphabet up to the length bound (full input trie; states = strings); (2) every sequence of its line templates / tokens up to the sequence bound; (3) pumped inputs w^k for every w up to length 2 (thorough 3) with k in {8, 64} (thorough 512), unbalanced nests and 20 kB (thorough 100 kB) single lines; (4) for the VCS-location codecs every sequence of 4-6 (thorough 7) tokens of the longest value grammar (url, opening bracket, subpath, closing bracket, -b, branch, blank); (5) for typed documents, the all-valid document built from the type's field table with <= 1 (thorough 2) fields absent or replaced by one of 7 garbage values or up to 6 near-valid values (pieces of the valid values of the field: first / last item, value cut short, value with a trailing comma); each call runs under catch_unwind with the parser loop budget armed (quadratic envelope), the allocation cap and the stall watchdog, and pumped inputs are also timed; non-trivial = distinct (entry point, non-empty string) of tiers 1-2".into()
+        "for each of the 60+ text-parsing entry points: (1) every string over its native character-class alphabet up to the length bound (full input trie; states = strings); (2) every sequence of its line templates / tokens up to the sequence bound; (3) pumped inputs w^k for every w up to length 2 (thorough 3) with k in {8, 64} (thorough 512), unbalanced nests and 20 kB (thorough 100 kB) single lines; (4) for the VCS-location codecs every sequence of 4-6 (thorough 7) tokens of the longest value grammar (url, opening bracket, subpath, closing bracket, -b, branch, blank); (5) for typed documents, the all-valid document built from the type's field table with <= 1 (thorough 2) fields absent or replaced by one of 7 garbage values or up to 6 near-valid values (pieces of the valid values of the field: first / last item, value cut short, value with a trailing comma), each document also without its final newline, with CR LF line ends, and with tab indentation and no blank after the colon; each call runs under catch_unwind with the parser loop budget armed (quadratic envelope), the allocation cap and the stall watchdog, and pumped inputs are also timed; non-trivial = distinct (entry point, non-empty string) of tiers 1-2".into()
     }
     fn bounds(&self, t: Tier) -> Value {
         let eps = entry_points();
